@@ -6,7 +6,7 @@ import regex as re
 from dateutil.relativedelta import relativedelta
 from tzlocal import get_localzone
 
-from dateparser.conf import apply_settings, check_settings
+from dateparser.conf import _lock, apply_settings, check_settings
 from dateparser.custom_language_detection.language_mapping import map_languages
 from dateparser.date_parser import date_parser
 from dateparser.freshness_date_parser import freshness_date_parser
@@ -522,6 +522,10 @@ class DateDataParser:
         if not isinstance(date_string, str):
             raise TypeError("Input type must be str")
 
+        with _lock:
+            return self._get_date_data(date_string, date_formats)
+
+    def _get_date_data(self, date_string, date_formats=None):
         res = parse_with_formats(date_string, date_formats or [], self._settings)
         if res["date_obj"]:
             return res
